@@ -480,6 +480,9 @@ def collect_programs(fa, tname, rnd, ngen):
     ]
     if ct is not None:
         directed += [
+            ("complex-typed-long-literals", lambda ctx, z: z * ctx.constant(1 / 3, z) + ctx.constant(math.pi, z) - ctx.constant(0.6931471805599453, z) * z, [ct]),
+            ("complex-typed-long-literals-wide", lambda ctx, z: z * ctx.constant(1 / 3, z) + ctx.constant(math.pi, z) - ctx.constant(-1.2345678901234567, z) * z, [ct64]),
+            ("complex-constant-long-parts", lambda ctx, z: z + ctx.constant(complex(1 / 3, -math.pi), z), [ct64]),
             ("complex-constant-inf-part", lambda ctx, z: z + ctx.constant(complex(math.inf, -0.0), z), [ct]),
             ("complex-constant-neginf-nan-parts", lambda ctx, z: z + ctx.constant(complex(-math.inf, 3.0), z) + ctx.constant(complex(0.0, -math.inf), z), [ct]),
         ]
@@ -567,8 +570,14 @@ def run_exec_target(rec, fa, tname, rnd, ngen, ninputs):
                 rec.violation(f"{tname}:emit-raises:{type(e).__name__}", dict(program=label, graph=describe(g.operands[-1]), exc=f"{type(e).__name__}: {e}"[:300]))
                 continue
             # loads?
-            env = dict(numpy=numpy, math=math, sys=__import__("sys"), warnings=warnings, make_complex=fa.utils.make_complex,
-                       finfo_float32=numpy.finfo(numpy.float32), finfo_float64=numpy.finfo(numpy.float64))
+            # the emitted text is loaded the way a generated file is: after the target's own source_file_header (imports and helpers such as
+            # make_complex come from there, not from the harness)
+            env = {}
+            try:
+                exec(compile(target.source_file_header, f"<{tname}:header>", "exec"), env)
+            except Exception as e:
+                rec.violation(f"{tname}:header-does-not-load:{type(e).__name__}", dict(exc=f"{type(e).__name__}: {e}"[:300]))
+                continue
             try:
                 code = compile(src, f"<{tname}:{label}>", "exec")
                 exec(code, env)
